@@ -92,32 +92,70 @@ def partitions(n):
 
 def placements(n, k):
     """All star sets with k stars in every row and column and no two stars touching (diagonals included),
-    as row-major bool tuples."""
+    as row-major bool tuples.  Row-by-row search: a row is a set of k pairwise non-adjacent columns that touches no star
+    of the previous row; column counts are tracked."""
     if (n, k) in _PLACEMENTS:
         return _PLACEMENTS[(n, k)]
+    import itertools
+
+    rows = [c for c in itertools.combinations(range(n), k) if all(b - a > 1 for a, b in zip(c, c[1:]))]
     out = []
-    for stars in base.colorings(n * n):
-        ok = True
-        for y in range(n):
-            if sum(stars[y * n + x] for x in range(n)) != k:
-                ok = False
-                break
-        if not ok:
-            continue
-        for x in range(n):
-            if sum(stars[y * n + x] for y in range(n)) != k:
-                ok = False
-                break
-        if not ok:
-            continue
-        cells = [(c // n, c % n) for c in range(n * n) if stars[c]]
-        for i in range(len(cells)):
-            for j in range(i + 1, len(cells)):
-                if abs(cells[i][0] - cells[j][0]) <= 1 and abs(cells[i][1] - cells[j][1]) <= 1:
-                    ok = False
-        if ok:
-            out.append(stars)
+
+    def rec(y, prev, colcount, acc):
+        if y == n:
+            if all(c == k for c in colcount):
+                stars = [False] * (n * n)
+                for yy, cols in enumerate(acc):
+                    for x in cols:
+                        stars[yy * n + x] = True
+                out.append(tuple(stars))
+            return
+        for cols in rows:
+            if any(abs(x - px) <= 1 for x in cols for px in prev):
+                continue
+            if any(colcount[x] >= k for x in cols):
+                continue
+            if any(colcount[x] + (1 if x in cols else 0) + (n - 1 - y) < k for x in range(n)):
+                continue
+            for x in cols:
+                colcount[x] += 1
+            rec(y + 1, cols, colcount, acc + [cols])
+            for x in cols:
+                colcount[x] -= 1
+
+    rec(0, (), [0] * n, [])
     _PLACEMENTS[(n, k)] = out
+    return out
+
+
+def structured_blocks(n):
+    """A few partitions of the n x n board into n connected blocks for boards too large to enumerate all of them."""
+    out = []
+    out.append([[y] * n for y in range(n)])  # rows
+    out.append([[x for x in range(n)] for _ in range(n)])  # columns
+    order = []
+    for y in range(n):
+        row = [(y, x) for x in range(n)]
+        if y % 2:
+            row.reverse()
+        order += row
+    snake = [[None] * n for _ in range(n)]
+    for i, (y, x) in enumerate(order):
+        snake[y][x] = min(n - 1, i // n)
+    out.append(snake)
+    # shifted snake: chunks of the boustrophedon order starting half a row later (blocks span two rows)
+    sh = [[None] * n for _ in range(n)]
+    off = n // 2
+    for i, (y, x) in enumerate(order):
+        sh[y][x] = ((i + off) // n) % n if (i + off) // n < n else n - 1
+    # the first half-row chunk and the last one would both be block 0 / n-1 pieces; keep only if every block is connected
+    ok = True
+    for b in range(n):
+        cells = [(y, x) for y in range(n) for x in range(n) if sh[y][x] == b]
+        if not cells or not base.cells_connected(cells):
+            ok = False
+    if ok:
+        out.append(sh)
     return out
 
 
@@ -126,12 +164,18 @@ class StarBattle(base.Rule):
 
     def shapes(self, tier):
         s = [(n, k, 0, 1) for n in (1, 2, 3) for k in (1, 2)]
+        # larger boards with a few structured block layouts (the first k=2 boards with any placement are 7x7 / 8x8)
+        big = [(5, 1, "structured", 0), (6, 1, "structured", 0), (7, 2, "structured", 0), (8, 2, "structured", 0)]
         if tier == "quick":
-            return s + [(4, 1, 0, 251), (4, 2, 0, 251)]
-        return s + [(4, 1, r, 6) for r in range(6)] + [(4, 2, 0, 6)]
+            return s + [(4, 1, 0, 251), (4, 2, 0, 251)] + big
+        return s + [(4, 1, r, 6) for r in range(6)] + [(4, 2, 0, 6)] + big + [(9, 2, "structured", 0), (10, 2, "structured", 0), (7, 1, "structured", 0)]
 
     def instances(self, shape, cap):
         n, k, r, m = shape
+        if r == "structured":
+            for blocks in structured_blocks(n):
+                yield {"n": n, "blocks": blocks, "k": k}
+            return
         count = 0
         for i, part in enumerate(partitions(n)):
             if i % m != r:
